@@ -49,6 +49,40 @@ func genMergeDict(r *Rng, k int) string {
 	return sb.String()
 }
 
+// the first VENDOR ... END-VENDOR block of text that declares an attribute, with its VENDOR line
+func vendorBlockWithAttribute(text string) string {
+	lines := strings.SplitAfter(text, "\n")
+	for i, l := range lines {
+		if !strings.HasPrefix(l, "VENDOR ") {
+			continue
+		}
+		name := strings.Fields(l)[1]
+		blk, hasAttr, in := l, false, false
+		for _, m := range lines[i+1:] {
+			if strings.HasPrefix(m, "BEGIN-VENDOR "+name) {
+				in = true
+			}
+			if !in {
+				break
+			}
+			if strings.HasPrefix(m, "VALUE ") {
+				continue // values would clash on their own
+			}
+			blk += m
+			if strings.HasPrefix(m, "ATTRIBUTE ") {
+				hasAttr = true
+			}
+			if strings.HasPrefix(m, "END-VENDOR") {
+				if hasAttr {
+					return blk
+				}
+				break
+			}
+		}
+	}
+	return ""
+}
+
 func dictSnapshot(d *dictionary.Dictionary) string {
 	t := &Toks{}
 	tDict(t, d)
@@ -57,7 +91,7 @@ func dictSnapshot(d *dictionary.Dictionary) string {
 
 func init() {
 	props["C20"] = func(c *Ctx) {
-		c.Res.Rule = "pairs and left-folded chains (2..4) of well-formed dictionaries drawn from small name/number pools (overlapping and disjoint attributes, values, vendors; dotted attribute numbers where one is a proper prefix of another; same-name/different-number vendors; matched vendors with clashing and non-clashing attributes, with a format= on none, one or both sides, equal or different); each is parsed by the real parser and merged; result or refusal compared with the heap model; deep snapshots of every input before/after every Merge; the first input is merged a second time with another partner and the first result re-checked (capacity aliasing). non-trivial = chain with at least one matched vendor or a conflict"
+		c.Res.Rule = "pairs and left-folded chains (2..4) of well-formed dictionaries drawn from small name/number pools (overlapping and disjoint attributes, values, vendors; dotted attribute numbers where one is a proper prefix of another; same-name/different-number vendors; matched vendors with clashing and non-clashing attributes, with a format= on none, one or both sides, equal or different; in a quarter of the chains a vendor block of an earlier input is repeated word for word in a later one); each is parsed by the real parser and merged; result or refusal compared with the heap model; deep snapshots of every input before/after every Merge; the first input is merged a second time with another partner and the first result re-checked (capacity aliasing). non-trivial = chain with at least one matched vendor or a conflict"
 		r := c.Rng.Fork()
 		n := c.N(1500, 40000)
 		for i := 0; i < n; i++ {
@@ -67,6 +101,16 @@ func init() {
 			okParse := true
 			for j := 0; j < k; j++ {
 				tx := genMergeDict(r, j)
+				if j > 0 && i%4 == 3 {
+					// a vendor block of an earlier input, repeated word for word (one team's dictionary included in two
+					// files): the same vendor with an identically declared attribute on both sides
+					if blk := vendorBlockWithAttribute(texts[r.Intn(len(texts))]); blk != "" && !strings.Contains(tx, strings.SplitN(blk, "\n", 2)[0]+"\n") {
+						name := strings.Fields(blk)[1]
+						if !strings.Contains(tx, "VENDOR "+name+" ") {
+							tx += blk
+						}
+					}
+				}
 				dc := &dictCase{rootName: "d", rootText: tx}
 				_, d, _, _ := runDictParse(dc)
 				if d == nil {
